@@ -338,6 +338,25 @@ def fixed_scenarios(ctx):
                 with ctx.case(timeout=20, label=('fixed', ti, text, fn)):
                     check_pattern(ctx, tr, ctx.rng_for('fx', ti, text, fn), 0, 0, forced=(toks, text, ['EXTGLOB'] + list(fn), text, {}))
                     ctx.count('fixed_scenario_cases')
+                    # rglob against the independent reference walk of the pattern behind its implicit recursive segment (which is a
+                    # `***` exactly under GLOBSTARLONG|FOLLOW): the symlink rule of every written `**` / `***` is kept
+                    if 'NOUNIQUE' not in fn and 'NODIR' not in fn:
+                        from .c06 import make_walker
+                        wfn = list(fn) + ['GLOBSTAR']
+                        pre = GL_ if ('GLOBSTARLONG' in fn and 'FOLLOW' in fn) else GS
+                        full = gen.join_segments([pre], None, lead=False, trail=False) + (('sep', '/'),) + tuple(toks)
+                        try:
+                            exp = make_walker(tr.root, wfn, strict=True).glob(full)
+                            got = {os.path.normpath(str(p_.relative_to(tr.root))) for p_ in WP.Path(tr.root).rglob(text, flags=pflags(['EXTGLOB'] + list(fn)))}
+                        except RecursionError:
+                            continue
+                        must = {os.path.normpath(T.norm_result(p_)) for p_, v in exp.items() if v is True} - {'.'}
+                        may = {os.path.normpath(T.norm_result(p_)) for p_ in exp} | {'.'}
+                        ctx.evals()
+                        ctx.count('rglob_vs_reference_walk')
+                        if must - got or got - may:
+                            ctx.disagree('Path.rglob differs from the reference walk of the pattern behind its implicit recursive segment',
+                                         {'tree': tr.spec, 'pattern': text, 'flags': ['EXTGLOB'] + list(fn), 'missing': sorted(must - got)[:8], 'extra': sorted(got - may)[:8]})
 
 
 # pathlib normalises `x/.` to `x` and `./x` to `x`: under SCANDOTDIR one pattern can reach one file by two spellings
